@@ -115,6 +115,7 @@ MUTATIONS: list[tuple[str, str, str, str, list[str]]] = [
     ("c06-sync-only-last-of-group", FEV, "                if name_ts > latest_ts:", "                if name == names[-1] and name_ts > latest_ts:", ["C05"]),
     ("c20-accept-unsupported-metric", SRC + "microgrid/_data_sourcing/microgrid_api_source.py", "        if known_metrics is not None and request.metric_id not in known_metrics:", "        if False:", ["C20"]),
     ("c11-report-channel-without-kind", SRC + "microgrid/_power_managing/_base_classes.py", "            f\".{self.set_operating_point=}\"", "            f\"\"", ["C11"]),
+    ("c09-mw-dies-on-old-sample", SRC + "timeseries/_moving_window.py", "                    except IndexError as err:", "                    except ZeroDivisionError as err:", ["C09"]),
     ("c06-3phase-no-sync", FE, "                while not phase_1.timestamp == phase_2.timestamp == phase_3.timestamp:", "                while False:", ["C06"]),
     ("c05-builder-mutates-operand", FE, "        builder = self._copy()\n        builder._steps.appendleft((TokenType.OPER, \"(\"))\n        builder._steps.append((TokenType.OPER, \")\"))\n        builder._steps.append((TokenType.OPER, oper))", "        builder = self\n        builder._steps.appendleft((TokenType.OPER, \"(\"))\n        builder._steps.append((TokenType.OPER, \")\"))\n        builder._steps.append((TokenType.OPER, oper))", ["C05"]),
     ("c12-meter-primary-for-subset", FGEN, ") and graph.successors(predecessor.component_id).issubset(\n                        components\n                    ):", ") and True:", ["C12"]),
